@@ -258,23 +258,35 @@ func BuildSelect(query *Query, slct *sqlparser.Select) error {
 }
 
 func BuildUnion(query *Query, expr *sqlparser.Union) error {
-	leftStatement := expr.Left.(*sqlparser.Select)
-	leftStatement.With = expr.With
-	rightStatement := expr.Right.(*sqlparser.Select)
-	rightStatement.With = expr.With
-	left, err := Prepare(query.data, leftStatement, query.options)
+	// a branch is a SELECT or, in a chain of three or more, another UNION
+	branch := func(statement sqlparser.Statement) (any, error) {
+		switch statement := statement.(type) {
+		case *sqlparser.Select:
+			{
+				statement.With = expr.With
+			}
+		case *sqlparser.Union:
+			{
+				if statement.With == nil {
+					statement.With = expr.With
+				}
+			}
+		default:
+			{
+				return nil, UNSUPPORTED_CASE.Extend(fmt.Sprintf("%T is not supported in a union", statement))
+			}
+		}
+		prepared, err := Prepare(query.data, statement, query.options)
+		if err != nil {
+			return nil, err
+		}
+		return prepared.execAndPostProcess()
+	}
+	leftData, err := branch(expr.Left)
 	if err != nil {
 		return err
 	}
-	leftData, err := left.execAndPostProcess()
-	if err != nil {
-		return err
-	}
-	right, err := Prepare(query.data, rightStatement, query.options)
-	if err != nil {
-		return err
-	}
-	rightData, err := right.execAndPostProcess()
+	rightData, err := branch(expr.Right)
 	if err != nil {
 		return err
 	}
@@ -291,8 +303,10 @@ func BuildUnion(query *Query, expr *sqlparser.Union) error {
 	slice = append(slice, leftDataArray...)
 	slice = append(slice, rightDataArray...)
 	query.from = slice
+	// the combined rows are returned as they are; UNION (without ALL) removes duplicates
 	query.selectDefinition = sqlparser.SelectExprs{}
-	query.selectDefinition.Exprs = make([]sqlparser.SelectExpr, 0)
+	query.selectDefinition.Exprs = []sqlparser.SelectExpr{&sqlparser.StarExpr{}}
+	query.distinct = expr.Distinct
 	err = BuildLimit(query, expr.Limit)
 	if err != nil {
 		return err
